@@ -15,8 +15,8 @@ package main
 //  cow           copy-on-write of the load balancer's published slice (C15)
 
 import (
-	"go/constant"
 	"fmt"
+	"go/constant"
 	"go/types"
 	"path/filepath"
 	"sort"
@@ -49,7 +49,7 @@ var guardTable = []guardSpec{
 
 // frozen exceptions: accesses that are ordered by something other than the lock
 var guardExceptions = map[string]string{
-	"Proxy.sessions@Connect":           "written once while Connect holds Proxy.mu and before isConnected is set: no listener, hence no client goroutine, exists yet",
+	"Proxy.sessions@Connect":            "written once while Connect holds Proxy.mu and before isConnected is set: no listener, hence no client goroutine, exists yet",
 	"connPool.conns@stayConnected:read": "first read of the goroutine's own slot; no other goroutine writes that element",
 }
 
@@ -161,6 +161,10 @@ func c18Types(p *Prog, r *Report) {
 			fatalf("anchor: %s.%s has no field %s (nor a single field of type %s)", w.pkg, w.typ, w.field, w.t)
 		}
 		got := types.TypeString(f.Type(), nil)
+		if strings.HasSuffix(w.t, "sync.Map") && p.syncMapWrapperField(f.Type()) != nil {
+			// a typed wrapper whose only field is the sync.Map
+			got = w.t
+		}
 		r.check(got == w.t, rule, w.typ+"."+w.field, p.Pos(f.Pos()), got, fmt.Sprintf("field has type %s, concurrent readers/writers rely on %s", got, w.t))
 	}
 	// the default prepared cache wraps a locked LRU
@@ -743,9 +747,11 @@ func prePublication(p *Prog, fn *ssa.Function, owner *types.Named) bool {
 		}
 		eachInstr(f, func(in ssa.Instruction) {
 			var cm *ssa.CallCommon
+			isGo := false
 			switch x := in.(type) {
 			case *ssa.Go:
 				cm = &x.Call
+				isGo = true
 			case *ssa.Call:
 				cm = &x.Call
 			default:
@@ -768,7 +774,9 @@ func prePublication(p *Prog, fn *ssa.Function, owner *types.Named) bool {
 					}
 				})
 			}
-			if !constructor(host) || !waits {
+			// a goroutine must be joined before the constructor returns; a plain call runs inside it
+			// (a call from a closure defined in the constructor - a handler registered there - runs later)
+			if !constructor(host) || (isGo && !waits) || (!isGo && f != host) {
 				okAll = false
 			}
 		})
@@ -776,15 +784,14 @@ func prePublication(p *Prog, fn *ssa.Function, owner *types.Named) bool {
 	return starters > 0 && okAll
 }
 
-
 // c18WriteModes: two rules on field writes that need no table.
 //
-//  (1) a field of a struct is written while the goroutine holds only the READ side of an RWMutex
-//      of that struct (and no exclusive lock of it): readers share the lock, so two of them race
-//      on the write.  Wrong for every field, listed or not.
-//  (2) a field of a shared object is written, without any lock of the object and after the object
-//      was published, by one goroutine while functions running under another goroutine entry point
-//      read it without a lock.
+//	(1) a field of a struct is written while the goroutine holds only the READ side of an RWMutex
+//	    of that struct (and no exclusive lock of it): readers share the lock, so two of them race
+//	    on the write.  Wrong for every field, listed or not.
+//	(2) a field of a shared object is written, without any lock of the object and after the object
+//	    was published, by one goroutine while functions running under another goroutine entry point
+//	    read it without a lock.
 func c18WriteModes(p *Prog, r *Report) {
 	const rule = "C18.write-modes"
 	r.Rule(rule, "no field is written while only the read side of an RWMutex of its struct is held; a field that goroutines of another entry point read without a lock is not written after the object went into use (outside construction, without a lock of the object)")
@@ -793,11 +800,12 @@ func c18WriteModes(p *Prog, r *Report) {
 	var bad []string
 	nw := 0
 	type wsite struct {
-		f     *types.Var
-		owner *types.Named
-		in    ssa.Instruction
-		fn    *ssa.Function
-		guardParam *ssa.Parameter // the write is under `if <bool parameter>`
+		f          *types.Var
+		owner      *types.Named
+		in         ssa.Instruction
+		fn         *ssa.Function
+		guardParam *ssa.Parameter // the write is under `if <bool parameter>` (or `if <struct parameter>.<bool field>`)
+		guardField *types.Var     // the bool field of the struct parameter, nil for a plain bool parameter
 	}
 	var unlocked []wsite
 	for _, fn := range fns {
@@ -845,8 +853,33 @@ func c18WriteModes(p *Prog, r *Report) {
 			}
 			ws := wsite{f: f, owner: owner, in: in, fn: fn}
 			for _, ct := range dominatingConds(in.Block()) {
-				if par, ok := ct.Cond.(*ssa.Parameter); ok && ct.Truth {
+				if !ct.Truth {
+					continue
+				}
+				if par, ok := ct.Cond.(*ssa.Parameter); ok {
 					ws.guardParam = par
+				}
+				// opts.initial: a bool field of a struct passed by value (spilled to a local)
+				if f, base := loadedField(ct.Cond); f != nil && base != nil {
+					for _, o := range origins(base) {
+						if par, ok := o.(*ssa.Parameter); ok {
+							ws.guardParam, ws.guardField = par, f
+						}
+					}
+					if al, ok := base.(*ssa.Alloc); ok {
+						for _, ref := range *al.Referrers() {
+							if st, ok := ref.(*ssa.Store); ok && st.Addr == ssa.Value(al) {
+								if par, ok := st.Val.(*ssa.Parameter); ok {
+									ws.guardParam, ws.guardField = par, f
+								}
+							}
+						}
+					}
+				}
+				if fv, ok := ct.Cond.(*ssa.Field); ok {
+					if par, ok := fv.X.(*ssa.Parameter); ok {
+						ws.guardParam, ws.guardField = par, fieldOfVal(fv)
+					}
 				}
 			}
 			unlocked = append(unlocked, ws)
@@ -904,6 +937,11 @@ func c18WriteModes(p *Prog, r *Report) {
 					if isC && c.Value != nil && c.Value.Kind() == constant.Bool && !constant.BoolVal(c.Value) {
 						continue // this caller never takes the branch
 					}
+					if ws.guardField != nil {
+						if v, known := boolFieldOfArg(a, ws.guardField); known && !v {
+							continue // the options literal of this caller leaves the flag false
+						}
+					}
 					if !prePublication(p, cs.Parent(), ws.owner) {
 						allPre = false
 					}
@@ -949,4 +987,44 @@ func c18WriteModes(p *Prog, r *Report) {
 	}
 	r.count("field_writes_examined", nw)
 	r.check(len(bad) == 0 && nw > 25, rule, "field writes", "", fmt.Sprintf("%d field writes examined", nw), strings.Join(dedupe(bad), " || "))
+}
+
+// boolFieldOfArg: the argument is a struct literal built at the call site; the value its bool
+// field f is given there (false when the literal does not mention it).
+func boolFieldOfArg(a ssa.Value, f *types.Var) (bool, bool) {
+	for _, o := range origins(a) {
+		var al *ssa.Alloc
+		switch x := o.(type) {
+		case *ssa.UnOp:
+			al, _ = x.X.(*ssa.Alloc)
+		case *ssa.Alloc:
+			al = x
+		}
+		if al == nil {
+			return false, false
+		}
+		for _, ref := range *al.Referrers() {
+			if st, ok := ref.(*ssa.Store); ok && st.Addr == ssa.Value(al) {
+				return false, false // a copy of another value, not a literal
+			}
+		}
+		val := false
+		for _, ref := range *al.Referrers() {
+			fa, ok := ref.(*ssa.FieldAddr)
+			if !ok || fieldOfAddr(fa) != f {
+				continue
+			}
+			for _, rr := range *fa.Referrers() {
+				if st, ok := rr.(*ssa.Store); ok && st.Addr == ssa.Value(fa) {
+					c, isC := st.Val.(*ssa.Const)
+					if !isC || c.Value == nil || c.Value.Kind() != constant.Bool {
+						return false, false
+					}
+					val = constant.BoolVal(c.Value)
+				}
+			}
+		}
+		return val, true
+	}
+	return false, false
 }
